@@ -127,6 +127,9 @@ def gen_plan(r, index, tier):
                'reads': [[r.choice(READS), r.randrange(4)] for _ in range(r.choice([0, 0, 1, 3, 6]))]}
         if route == 'clone':
             rep['of'] = r.choice(['canonical', 'permuted', 'decoded:ber'])
+            rep['how'] = r.choice(['clone', 'clone', 'clone', 'clone', 'pickle', 'copy'])
+        if route == 'defaults-explicit' and r.random() < 0.4:
+            rep['api'] = 'setDefaultComponents'
         if route == 'inplace':
             # built the documented lazy way (outer['items'][0]['a'] = 7) with read-only uses of the
             # still incomplete value in between
@@ -327,6 +330,28 @@ def build_route(schema, desc, v, route, rnd):
     raise ValueError(k)
 
 
+def _set_defaults(obj, depth=0):
+    univ = U.p.univ
+    if depth > 10:
+        return
+    if isinstance(obj, univ.Choice):
+        try:
+            _set_defaults(obj.getComponent(), depth + 1)
+        except Exception:
+            pass
+    elif isinstance(obj, (univ.Sequence, univ.Set)):
+        for i in range(len(obj.componentType)):
+            c = obj.getComponentByPosition(i, default=None, instantiate=False)
+            if c is not None:
+                _set_defaults(c, depth + 1)
+        obj.setDefaultComponents()
+    elif isinstance(obj, (univ.SequenceOf, univ.SetOf)):
+        for i in range(len(obj)):
+            c = obj.getComponentByPosition(i, default=None, instantiate=False)
+            if c is not None:
+                _set_defaults(c, depth + 1)
+
+
 def _set_real_base(obj, base, depth=0):
     """The BER encoder's documented per-value hint for binary REALs (univ.Real.binEncBase)."""
     univ = U.p.univ
@@ -420,9 +445,21 @@ def make_replica(schema, desc, v, rep):
         if rep.get('of', '').startswith('decoded:') and \
                 U.absval_canon(src) != U.absval_canon(U.build_value(schema, desc, v)):
             raise W.Skip('decoded-source-not-faithful')     # C01 territory, see execute()
+        how = rep.get('how', 'clone')
+        if how == 'pickle':
+            import pickle
+            return pickle.loads(pickle.dumps(src))
+        if how == 'copy':
+            import copy as _copy
+            return _copy.copy(src)
         return src.clone(cloneValueFlag=True) if isinstance(src, U.p.base.ConstructedAsn1Type) else src.clone()
     if route == 'subtyped' and desc['k'] in U.PRIMS:
         route = 'canonical'      # a top-level object of a narrower type is not "a value of the same type"
+    if route == 'defaults-explicit' and rep.get('api') == 'setDefaultComponents':
+        # the documented API for "set the DEFAULT components explicitly", applied at every level
+        obj = build_route(schema, desc, v, 'canonical', rnd)
+        _set_defaults(obj)
+        return obj
     return build_route(schema, desc, v, route, rnd)
 
 
